@@ -10,7 +10,6 @@ import KlogV.Props.Tables
 import KlogV.Props.Rx.Values
 import KlogV.Props.Rx.Summary
 import KlogV.Props.Rx.Model
-import KlogV.Props.GoSrcParse
 namespace KlogV.C01
 
 abbrev HasLongDigitRun (l : List Char) : Prop := KlogV.HasLongDigitRun l
